@@ -34,6 +34,11 @@ pub fn two_cols<T: Clone>(v: &[T]) -> Array2<T> {
     let n = v.len();
     Array2::from_shape_fn((n, 2), |(i, j)| if j == 0 { v[i].clone() } else { v[(i + 1) % n].clone() })
 }
+/// a matrix with rows and columns in reverse order, to be viewed with strides (-p, -1)
+pub fn rev2<F: Clone>(a: &Array2<F>) -> Array2<F> {
+    let (n, p) = a.dim();
+    Array2::from_shape_fn((n, p), |(i, j)| a[(n - 1 - i, p - 1 - j)].clone())
+}
 /// a matrix in column-major (Fortran) order
 pub fn f_order<F: Clone>(a: &Array2<F>) -> Array2<F> {
     let (n, p) = a.dim();
@@ -221,8 +226,8 @@ pub fn call_cm_stale(form: usize, cached: &[usize], pred: &[usize], truth: &[usi
 
 // ------------------------------------------------------------------ ROC / log-loss
 
-pub const BIN_FORMS: usize = 8;
-pub const BIN_FORM_NAMES: [&str; BIN_FORMS] = ["slice", "array", "view", "dataset", "dataset_views", "strided_view", "dataset_strided", "weighted_datasets"];
+pub const BIN_FORMS: usize = 10;
+pub const BIN_FORM_NAMES: [&str; BIN_FORMS] = ["slice", "array", "view", "dataset", "dataset_views", "strided_view", "dataset_strided", "weighted_datasets", "reversed_view", "dataset_reversed"];
 
 fn prs(s: &[f32]) -> Vec<Pr> {
     s.iter().map(|x| Pr::new_unchecked(*x)).collect()
@@ -262,6 +267,18 @@ pub fn call_roc(form: usize, s: &[f32], y: &[bool]) -> Res<linfa::metrics::Recei
         7 => {
             let a = DatasetBase::new(recs(s.len()), Array1::from(pr)).with_weights(wts(s.len()));
             let b = DatasetBase::new(recs(y.len()), Array1::from(y.to_vec())).with_weights(wts(y.len()));
+            a.roc(&b)
+        }
+        8 => {
+            // negative stride
+            let pv = reversed(&pr);
+            pv.slice(s![..;-1]).roc(y)
+        }
+        9 => {
+            let (r1, r2) = (recs(s.len()), recs(y.len()));
+            let (pv, yv) = (reversed(&pr), reversed(y));
+            let a = DatasetBase::new(r1.view(), pv.slice(s![..;-1]));
+            let b = DatasetBase::new(r2.view(), yv.slice(s![..;-1]));
             a.roc(&b)
         }
         _ => unreachable!("roc form"),
@@ -304,6 +321,18 @@ pub fn call_log_loss(form: usize, s: &[f32], y: &[bool]) -> Res<f32> {
             let b = DatasetBase::new(recs(y.len()), Array1::from(y.to_vec())).with_weights(wts(y.len()));
             a.log_loss(&b)
         }
+        8 => {
+            // negative stride
+            let pv = reversed(&pr);
+            pv.slice(s![..;-1]).log_loss(y)
+        }
+        9 => {
+            let (r1, r2) = (recs(s.len()), recs(y.len()));
+            let (pv, yv) = (reversed(&pr), reversed(y));
+            let a = DatasetBase::new(r1.view(), pv.slice(s![..;-1]));
+            let b = DatasetBase::new(r2.view(), yv.slice(s![..;-1]));
+            a.log_loss(&b)
+        }
         _ => unreachable!("log_loss form"),
     }
 }
@@ -329,8 +358,8 @@ pub(crate) use eight;
 
 pub const REG1_FORMS: usize = 11;
 pub const REG1_FORM_NAMES: [&str; REG1_FORMS] = ["arr.m(&arr)", "arr.m(&ds)", "ds.m(&arr)", "ds.m(&ds)", "view.m(&view)", "col2.m(&col2)", "dsview.m(&view)", "arr.m(&&arr)", "strided.m(&strided)", "colds.m(&reversed)", "wds.m(&wds)"];
-pub const REGM_FORMS: usize = 9;
-pub const REGM_FORM_NAMES: [&str; REGM_FORMS] = ["arr2.m(&arr2)", "arr2.m(&ds)", "ds.m(&arr2)", "ds.m(&ds)", "view2.m(&view2)", "dsview.m(&dsview)", "forder2.m(&forder2)", "ds_strided2.m(&strided2)", "wds.m(&wds)"];
+pub const REGM_FORMS: usize = 10;
+pub const REGM_FORM_NAMES: [&str; REGM_FORMS] = ["arr2.m(&arr2)", "arr2.m(&ds)", "ds.m(&arr2)", "ds.m(&ds)", "view2.m(&view2)", "dsview.m(&dsview)", "forder2.m(&forder2)", "ds_strided2.m(&strided2)", "wds.m(&wds)", "reversed2.m(&ds_reversed2)"];
 
 /// single target: `[metric] -> Option<F>`
 pub fn call_reg1<F: linfa::Float>(form: usize, a: &Array1<F>, b: &Array1<F>, g: &dyn Fn(&dyn Fn() -> Res<F>) -> Option<F>) -> Vec<Option<F>> {
@@ -441,14 +470,21 @@ pub fn call_regm<F: linfa::Float>(form: usize, a: &Array2<F>, b: &Array2<F>, g: 
             let db = DatasetBase::new(rec(), b.clone()).with_weights(wts(n));
             eight!(g, da, &db)
         }
+        9 => {
+            // negative strides on both axes
+            let (ra, rb, r) = (rev2(a), rev2(b), rec());
+            let va = ra.slice(s![..;-1, ..;-1]);
+            let db = DatasetBase::new(r.view(), rb.slice(s![..;-1, ..;-1]));
+            eight!(g, va, &db)
+        }
         _ => unreachable!("regm form"),
     }
 }
 
 // ------------------------------------------------------------------ silhouette
 
-pub const SIL_FORMS: usize = 8;
-pub const SIL_FORM_NAMES: [&str; SIL_FORMS] = ["ds<usize>", "ds<bool|usize>", "ds<String>", "counted_ds", "dsview", "forder_records", "strided_views", "weighted_ds"];
+pub const SIL_FORMS: usize = 9;
+pub const SIL_FORM_NAMES: [&str; SIL_FORMS] = ["ds<usize>", "ds<bool|usize>", "ds<String>", "counted_ds", "dsview", "forder_records", "strided_views", "weighted_ds", "reversed_views"];
 
 /// `silhouette_score` through label type / container `form`; labels are given as small naturals
 pub fn call_sil<F: linfa::Float>(form: usize, rec: Array2<F>, l: &[usize]) -> Res<F> {
@@ -481,6 +517,10 @@ pub fn call_sil<F: linfa::Float>(form: usize, rec: Array2<F>, l: &[usize]) -> Re
             DatasetBase::new(pr.slice(s![..;2, ..;2]), ti.slice(s![..;2])).silhouette_score()
         }
         7 => Dataset::new(rec, Array1::from(l.to_vec())).with_weights(wts(l.len())).silhouette_score(),
+        8 => {
+            let (rr, tr) = (rev2(&rec), reversed(l));
+            DatasetBase::new(rr.slice(s![..;-1, ..;-1]), tr.slice(s![..;-1])).silhouette_score()
+        }
         _ => unreachable!("sil form"),
     }
 }
@@ -503,8 +543,8 @@ pub fn pvalues_are_frequencies(rec: Array2<f64>) -> bool {
     c.get_p_values().map_or(p < 2, |pv| pv.iter().all(|v| { let k = *v * 3.0; (0.0..=3.0).contains(&k) && (k - k.round()).abs() < 1e-4 }))
 }
 
-pub const PEARSON_FORMS: usize = 6;
-pub const PEARSON_FORM_NAMES: [&str; PEARSON_FORMS] = ["owned", "forder", "strided_view", "dataset_with_targets", "with_p_value", "weighted_ds"];
+pub const PEARSON_FORMS: usize = 7;
+pub const PEARSON_FORM_NAMES: [&str; PEARSON_FORMS] = ["owned", "forder", "strided_view", "dataset_with_targets", "with_p_value", "weighted_ds", "reversed_view"];
 
 /// `pearson_correlation` of the records through memory layout / container `form`
 pub fn call_pearson<F: linfa::Float>(form: usize, rec: Array2<F>) -> Vec<F> {
@@ -529,6 +569,10 @@ pub fn call_pearson<F: linfa::Float>(form: usize, rec: Array2<F>) -> Vec<F> {
         5 => {
             let n = rec.nrows();
             DatasetBase::from(rec).with_weights(wts(n)).pearson_correlation().get_coeffs().to_vec()
+        }
+        6 => {
+            let rr = rev2(&rec);
+            DatasetBase::from(rr.slice(s![..;-1, ..;-1])).pearson_correlation().get_coeffs().to_vec()
         }
         _ => unreachable!("pearson form"),
     }
